@@ -7,6 +7,7 @@ import (
 	"strings"
 
 	"github.com/pkg/errors"
+	"github.com/tonistiigi/fsutil/types"
 )
 
 type Kind int
@@ -296,4 +297,51 @@ func (t *tab) badLoopOnState() int {
 		n += t.ents[i].n
 	}
 	return n
+}
+
+// ---- maps used as sets, type assertion
+
+type seen struct {
+	names map[string]struct{}
+}
+
+func (v *seen) okSeen(name string, fi os.FileInfo, forget bool) (bool, error) {
+	if v.names == nil {
+		v.names = make(map[string]struct{})
+	}
+	st, ok := fi.Sys().(*types.Stat)
+	if !ok {
+		return false, errors.New("no stat")
+	}
+	if forget {
+		delete(v.names, name)
+		return false, nil
+	}
+	if _, ok := v.names[st.Linkname]; ok {
+		return true, nil
+	}
+	if fi.Mode()&os.ModeDir == 0 {
+		v.names[name] = struct{}{}
+	}
+	return false, nil
+}
+
+func (v *seen) badLenOfMap() int {
+	return len(v.names)
+}
+
+func (v *seen) badRangeOverMap() int {
+	n := 0
+	for k := range v.names {
+		n += len(k)
+	}
+	return n
+}
+
+func (v *seen) badUseOfFailedAssertion(fi os.FileInfo) int {
+	st, ok := fi.Sys().(*types.Stat)
+	if !ok {
+		return len(st.Path)
+	}
+	return 0
 }
